@@ -125,8 +125,11 @@ def fragment_form(rng, big=False):
             if rng.random() < 0.1 and tops:
                 r["label"] = "Sec ${%s}" % rng.choice(tops)
             r.pop("repeat_count", None)
-            if kind == "repeat" and rng.random() < 0.3:
-                r["repeat_count"] = rng.choice(["3", "2 + 1", expr(nm), "${%s}" % rng.choice(tops)] if tops else ["3"])
+            if kind == "repeat" and rng.random() < 0.45:
+                t_ = rng.choice(tops) if tops else None
+                r["repeat_count"] = rng.choice(
+                    ["3", "2 + 1", expr(nm), "${%s}" % t_, "${%s} + 1" % t_, "${%s} * ${%s}" % (t_, rng.choice(tops)),
+                     "count-selected(${%s})" % t_, "2 * ${%s}" % t_] if tops else ["3"])
             continue
         if base == "calculate":
             r["calculation"] = expr(nm)
